@@ -29,5 +29,5 @@ def run(ctx):
     res.floor("C06-R2", 4)
     res.floor("C06-R3", 1)
     res.floor("C06-R4", 7)
-    res.floor("C06-R5", 10)
+    res.floor("C06-R5", 7)
     return res
